@@ -61,11 +61,16 @@ VARIABLES
   cachedNow,  \* tasks reported cached (is_cached) after the call; only meaningful when obsCache
   cacheVals,  \* cacheVals[t] = value a fresh load of t gives after the call, <<>> if none/unloadable
   obsCache,   \* TRUE once the post-call cache observation has been made
-  envok       \* set of <<t, fact>> process-environment facts observed in run() that contradict the backend's promise
+  envok,      \* set of <<t, fact>> process-environment facts observed in run() that contradict the backend's promise
+  marks,      \* post-call observation: set of [t, marked, anc] -- an instance of task t reachable from the
+              \* requested instances through the chain of tasks anc; marked iff its result_meta is set
+  emitted,    \* sequence of message tokens emitted by tasks (logger records, stdout / stderr lines)
+  delivered,  \* sequence of message tokens that reached the caller's labtech logger handlers
+  obsLogs     \* TRUE once the delivered messages have been observed (after the call)
 
 avars == <<cfg, phase, exc, subCount, viaCache, slot, inrun, runCount, loadCount, fin, done, died, held,
            captured, dig, reads, atrest, intCount, outKeys, outVals, lateStart, idlePolls,
-           cachedNow, cacheVals, obsCache, envok>>
+           cachedNow, cacheVals, obsCache, envok, marks, emitted, delivered, obsLogs>>
 
 -----------------------------------------------------------------------------
 (* Derived notions *)
@@ -157,6 +162,9 @@ C03_OutcomeStable_Step ==
     \A t \in Tasks : /\ done[t] # "none" => done'[t] = done[t]
                      /\ fin[t] # "none" => fin'[t] = fin[t]
 
+C03_Marked ==
+    \A m \in marks : (done[m.t] = "ok" /\ \A a \in Range(m.anc) : runCount[a] > 0) => m.marked
+
 (* C04  per-type and global concurrency limits are never exceeded *)
 
 C04_Workers == Cardinality(slot) <= MaxW /\ Cardinality(inrun) <= MaxW
@@ -204,6 +212,13 @@ C14_NoStartAfterInterrupt_Step ==
 C14_RunningFinish ==
     (intCount = 1 /\ phase # "running" /\ ~C14xC10) => slot = {}
 
+C14_RunningCached ==
+    (intCount = 1 /\ obsCache /\ cfg.backend # "serial" /\ ~C14xC10) =>
+       \A t \in Tasks : ( /\ runCount[t] > 0 /\ Cacheable(t) /\ t \notin FailSet /\ t \notin died
+                          /\ \A d \in Deps(t) : fin[d] = "ok" ) => t \in cachedNow
+C14_CacheConsistent ==
+    obsCache => \A t \in cachedNow : cacheVals[t] # <<>> /\ (cacheVals[t] = Val(t) \/ cacheVals[t] = ValE(t, 0))
+
 (* C16  each task runs in the environment its backend and context promise *)
 
 C16_Env == envok = {}
@@ -215,5 +230,13 @@ C17_Prompt == (atrest /\ Calm) => \A d \in held : StillNeeded(d)
 C17_Captured == \A t \in Req : done[t] = "ok" => t \in captured
 C17_EmptyAtReturn == phase = "returned" => held = {}
 C17_OnlyNew_Step == held' \subseteq held \cup {t \in Tasks : done[t] = "none"}
+
+
+(* C19  messages emitted by a task reach the caller's log exactly once *)
+
+Count(m, s) == Cardinality({i \in DOMAIN s : s[i] = m})
+C19_ExactlyOnce ==
+    (obsLogs /\ phase = "returned") =>
+       \A m \in Range(emitted) \cup Range(delivered) : Count(m, emitted) = Count(m, delivered)
 
 =============================================================================
